@@ -6,8 +6,13 @@
 (* publish answers, retries after a failure).                                *)
 (* The weight of the sweep tx of an input-set shape is written down here     *)
 (* (measured on the code: 166 + 273/p2wkh input + 231/p2tr input + 445/input *)
-(* with a required p2wsh output, +48 for a p2tr change script); the executor *)
-(* reports the real weight and the trace spec uses that one.                 *)
+(* with a required p2wsh output, +280 for a commitment anchor input, +48 for *)
+(* a p2tr change script); the executor reports the real weight and the trace *)
+(* spec uses that one.  A request is SweepReq(config, input set): the        *)
+(* schedule gives the sweeper's configuration (maxvb, sat/vb) and the inputs *)
+(* (budgets, rates offered before, deadline, an optional anchor input with   *)
+(* unconfirmed-parent info pw/pf at a rate below the floor, inside the ramp  *)
+(* or above the ceiling); the executor drives the real UtxoSweeper with it.  *)
 (* Main = TRUE keeps the generated inputs inside the domain on which the     *)
 (* code is expected to satisfy the property (see the deviations in SweepFee);*)
 (* the triggers of the deviations are replayed from spec/SweepFee/directed.  *)
@@ -18,7 +23,7 @@ VARIABLES hist, gh, nretry
 gvars == <<vars, hist, gh, nretry>>
 Rec(e) == hist' = Append(hist, e)
 
-Weight(nk, nt, nr, dust) == 166 + (IF dust = 330 THEN 48 ELSE 0) + 273 * nk + 231 * nt + 445 * nr
+Weight(nk, nt, nr, na, dust) == 166 + (IF dust = 330 THEN 48 ELSE 0) + 273 * nk + 231 * nt + 445 * nr + 280 * na
 
 -----------------------------------------------------------------------------
 GRelays == {253, 1000}
@@ -74,12 +79,15 @@ GNext ==
      \/ /\ Mode \in {"pub", "both"} /\ pc = "none"
         /\ \E sh \in {Pick(Shapes, N)} : \E r \in {Pick(GRelays, N)} :
            \E e \in {Pick({r + 47, 2000, 50000}, N)} :            \* the budget rate aimed at
-           LET w == Weight(sh[1], sh[2], sh[3], sh[4]) IN
+           \E pa \in {Pick({0, 0, 1, 2, 3, 4}, N)} :                \* unconfirmed parent: none / class 1..4
+           LET na == IF pa = 0 THEN 0 ELSE 1
+               w == Weight(sh[1], sh[2], sh[3], na, sh[4]) IN
            \E b \in {IF w = 2896 THEN Pick({181 * 5, 181 * 33, 181 * 801, FeeFor(e, w) + 1}, N)
                       ELSE FeeFor(e, w) + Pick(0..(w \div 1000 + 2), N)} :
-           \E m \in {Pick({e \div 2 + r, 250000}, N)} :
-           LET ro == sh[3] * 20000 IN
-           \E ti \in {ro + Pick({b + 100000, FeeFor(e \div 2 + r, w) + 200, b + sh[4] - 1, b \div 2,
+           \E mv \in {Pick({(e \div 2 + r) \div KwPerVb + 1, 1000}, N)} :     \* sweeper.maxfeerate, sat/vb
+           LET ro == sh[3] * 20000
+               m  == KwPerVb * mv IN
+           \E ti \in {ro + 330 * na + Pick({b + 100000, FeeFor(e \div 2 + r, w) + 200, b + sh[4] - 1, b \div 2,
                                   FeeFor(r, w) + sh[4] - 150,          \* change below dust from the start
                                   FeeFor(r + 60, w) + sh[4] + 5}, N)} : \* ... from the second or third rate on
            \E c0 \in {Pick({0, 1, 2, 3, 5, 1009}, N)} :
@@ -97,15 +105,21 @@ GNext ==
                                [] pt = 2 -> IF i = n THEN sq ELSE 0
                                [] pt = 3 -> IF i = 1 THEN sq ELSE lo
                                [] pt = 4 -> IF i = (n + 1) \div 2 THEN sq ELSE IF i % 2 = 0 THEN lo ELSE 0]
-               q == [budget |-> b, weight |-> w, maxrate |-> m, relay |-> r, totalin |-> ti, reqout |-> ro,
-                     dust |-> sh[4], deadline |-> H0 + c0, sopt |-> sq, est |-> es,
-                     prevmax |-> IF sq > 0 THEN sq ELSE 0] IN
+               \* the parent of the anchor: pays nothing / below the floor / inside the ramp / above the ceiling
+               pw == CASE pa = 0 -> 0 [] pa = 1 -> 724 [] pa = 2 -> 1116 [] pa = 3 -> 2500 [] pa = 4 -> 724
+               pf == CASE pa = 0 -> 0 [] pa = 1 -> 0 [] pa = 2 -> FeeFor(r \div 2, pw)
+                       [] pa = 3 -> FeeFor((r + Min(e, m)) \div 2, pw) [] pa = 4 -> FeeFor(Min(e, m) + 1000, pw)
+               q == SweepReq([maxvb |-> mv, relay |-> r, est |-> es],
+                             [weight |-> w, totalin |-> ti, reqout |-> ro, dust |-> sh[4], inbudget |-> b,
+                              indeadline |-> H0 + c0, prevmax |-> IF sq > 0 THEN sq ELSE 0,
+                              pweight |-> pw, pfee |-> pf]) IN
            /\ Main => ReqInMain(q)
            /\ Request(q)
            /\ Rec([a |-> "Req", nk |-> sh[1], nt |-> sh[2], nr |-> sh[3], budget |-> q.budget,
                    maxrate |-> q.maxrate, relay |-> q.relay, totalin |-> q.totalin, reqout |-> q.reqout,
                    dust |-> q.dust, deadline |-> q.deadline, sopt |-> q.sopt, est |-> q.est,
-                   weight |-> q.weight, prevs |-> pv, agg |-> ag])
+                   weight |-> q.weight, prevs |-> pv, agg |-> ag,
+                   maxvb |-> mv, na |-> na, pw |-> pw, pf |-> pf])
            /\ gh' = H0 /\ nretry' = 0
      \/ /\ nretry < 2 /\ Retry /\ Rec([a |-> "Retry"]) /\ nretry' = nretry + 1 /\ UNCHANGED gh
      \/ \E h \in {gh, gh + 1} : \E e \in EndRates :
